@@ -709,7 +709,7 @@ class AutoLink:
         bell = BellState(self.bell[i] if i < len(self.bell) else 0)
         extra = self.fields(i, kind) if self.fields else {}
         if kind == "K":
-            phys = self.ex._get_unused_physical_qubit()
+            phys = extra["logical_qubit_id"] if "logical_qubit_id" in extra else self.ex._get_unused_physical_qubit()
             r = LinkLayerOKTypeK(type=ReturnType.OK_K, create_id=extra.get("create_id", 0), logical_qubit_id=phys,
                                  directionality_flag=dirflag, sequence_number=extra.get("sequence_number", i), purpose_id=purpose,
                                  remote_node_id=remote, goodness=extra.get("goodness", 0), goodness_time=extra.get("goodness_time", 0),
